@@ -392,3 +392,19 @@ Fixpoint cmp_lex (ds ss : list N) : N :=
   | d :: ds', s :: ss' => if d <? s then 1 else if s <? d then 3 else cmp_lex ds' ss'
   | _, _ => 2
   end.
+
+(* hex.if / bit.if n (and if0 / if1): steps from digit 0, leaves through exit x at the first non-zero digit *)
+Definition dspec_if (x : N) : dspec := fun r _ =>
+  match r with [d] => Some ([d], [], if d =? 0 then None else Some x) | _ => None end.
+
+(* bit.inc n: cell 0 is the carry (set by the prologue); a step that finds it clear leaves, else dst++ with carry out *)
+Definition dspec_binc : dspec := fun r ci =>
+  match r, ci with
+  | [d], c :: _ => if c =? 0 then Some ([d], [0], Some 0) else Some ([(d + 1) mod 2], [(d + 1) / 2], None)
+  | _, _ => None
+  end.
+
+(* digit-wise steps that change both operands: dst digit := f dst src, src digit := g dst src (xor_zero, swap) *)
+Definition dspec_map22 (f g : N -> N -> N) : dspec := fun r _ =>
+  match r with [d; s] => Some ([f d s; g d s], [], None) | _ => None end.
+Definition v_map22 (F G : N -> N -> N) : bspec := fun vs => match vs with [d; s] => ok [F d s; G d s] | _ => None end.
